@@ -258,6 +258,76 @@ func record(seq []ls.SMsg, sl []int32, bpm float64, res smf.MetricTicks, via str
 	}
 }
 
+// twoTakes: the same Track variable records twice (each take starts with its
+// tempo event; the second take's first message has the status of the first
+// take's last one), then is closed, added and written: the file must be valid
+// and read back to the track, and hold the channel messages of both takes.
+func twoTakes(seq []ls.SMsg, bpm float64, res smf.MetricTicks) {
+	ctx.Eval()
+	vtime.Reset()
+	drv := testdrv.New("rec")
+	ins, _ := drv.Ins()
+	outs, _ := drv.Outs()
+	out := outs[0]
+	out.Open()
+	var tr smf.Track
+	sl := make([]int32, len(seq))
+	nch := 0
+	for take := 0; take < 2; take++ {
+		ref := &refmidi.Receiver{BufSize: 1024, SysexOn: false} // every Listen starts a fresh decoder
+		var stop func()
+		var err error
+		c := engine.Catch(func() { stop, err = tr.RecordFrom(ins[0], res, bpm) })
+		if c.Panicked || err != nil {
+			report("record:start:second-take", seq, sl, bpm, res, "two-takes", fmt.Sprintf("RecordFrom (take %d) failed: %v %s", take+1, err, c.Value))
+			return
+		}
+		for _, m := range seq {
+			drv.Sleep(10 * time.Millisecond)
+			for _, b := range m.Bytes {
+				for _, d := range ref.Feed(b) {
+					if d.Msg[0] >= 0x80 && d.Msg[0] < 0xF0 {
+						nch++
+					}
+				}
+			}
+			out.Send(m.Bytes)
+		}
+		stop()
+	}
+	tr.Close(0)
+	file := smf.New()
+	file.TimeFormat = res
+	file.Add(tr)
+	got := 0
+	for _, e := range sp.FromTrack(file.Tracks[0]) {
+		if len(e.Msg) > 0 && e.Msg[0] >= 0x80 && e.Msg[0] < 0xF0 {
+			got++
+		}
+	}
+	feat := kindsOf(seq)
+	if got != nch {
+		report("record:two-takes:channel-count:"+feat, seq, sl, bpm, res, "two-takes", fmt.Sprintf("%d channel messages stored, %d arrived over both takes", got, nch))
+		return
+	}
+	var buf bytes.Buffer
+	var werr error
+	c := engine.Catch(func() { _, werr = file.WriteTo(&buf) })
+	if c.Panicked || werr != nil {
+		report("record:two-takes:write:"+feat, seq, sl, bpm, res, "two-takes", fmt.Sprintf("WriteTo: %v %s", werr, c.Value))
+		return
+	}
+	if _, perr := refsmf.Parse(buf.Bytes(), refsmf.Strict); perr != nil {
+		report("record:two-takes:invalid-file:"+feat, seq, sl, bpm, res, "two-takes", "strict parser rejects the file: "+perr.Error()+" bytes="+engine.Hex(buf.Bytes()))
+		return
+	}
+	back, rerr := smf.ReadFrom(bytes.NewReader(buf.Bytes()))
+	if rerr != nil || len(back.Tracks) != 1 || refsmf.FirstDiff(sp.FromTrack(file.Tracks[0]), sp.FromTrack(back.Tracks[0])) != "" {
+		report("record:two-takes:readback:"+feat, seq, sl, bpm, res, "two-takes", fmt.Sprintf("the file does not read back to the track (%v)", rerr))
+	}
+	ctx.Add("two_take_recordings", 1)
+}
+
 func space(first int) {
 	maxDepth := ctx.Pick(3, 4)
 	seq := make([]ls.SMsg, maxDepth)
@@ -284,6 +354,9 @@ func space(first int) {
 						}
 						record(s, sl, bpm, res, "track")
 					}
+				}
+				if depth <= 2 && sl[0] == 0 && (depth == 1 || sl[1] == 0) {
+					twoTakes(s, 120, 960)
 				}
 				if depth <= 2 {
 					record(s, sl, 120, 960, "smf")
@@ -447,6 +520,18 @@ func main() {
 
 func replay() {
 	m := ctx.LoadReplay()
+	if m["via"] == "two-takes" {
+		var seq []ls.SMsg
+		for _, n := range m["messages"].([]interface{}) {
+			for _, a := range alphabet {
+				if a.Name == n.(string) {
+					seq = append(seq, a)
+				}
+			}
+		}
+		twoTakes(seq, m["bpm"].(float64), smf.MetricTicks(m["resolution"].(float64)))
+		ctx.Finish("replay")
+	}
 	if m["kind"] == "two-recordings" {
 		twoRecordings()
 		ctx.Finish("replay")
